@@ -9,8 +9,8 @@ package main
 // insertion order, so the choice point enumerates every order the runtime can produce.
 
 import (
-	"strconv"
 	"runtime"
+	"strconv"
 	"strings"
 	_ "unsafe"
 )
@@ -19,10 +19,10 @@ import (
 func verifSetMapIterHook(f func(count int, B uint8, pc uintptr) (uintptr, bool))
 
 const (
-	mapFixed = iota // every library range starts at offset 0 (no choice point)
-	mapDeviation    // a rotation is a deviation
-	mapFree         // rotations are free (full product)
-	mapUniform      // every library range starts at offset (mapRotation mod count): one choice for all sites
+	mapFixed     = iota // every library range starts at offset 0 (no choice point)
+	mapDeviation        // a rotation is a deviation
+	mapFree             // rotations are free (full product)
+	mapUniform          // every library range starts at offset (mapRotation mod count): one choice for all sites
 )
 
 var mapRotation int
